@@ -89,6 +89,9 @@ func (w *World) OfferMutation() error {
 }
 
 func (w *World) rootNode(field string) (string, bool) {
+	if w.faults["$root."+field] { // the application refuses to hand out this operation root (the caller returns an error)
+		return "", false
+	}
 	if r, ok := w.U.Roots[field]; ok {
 		return r, true
 	}
@@ -1129,6 +1132,17 @@ func Compare(exp *Response, act *Actual, withCalls bool) []Diff {
 		}
 		if len(act.Errs) == 0 {
 			ds = append(ds, Diff{"errors", "the model refuses the request but the response has no errors"})
+		}
+		// the operation root itself failed: that failure is at the root of the response (an empty path), once per error
+		if len(exp.Errs) > 0 && exp.Errs[0].Name == "root" && exp.Errs[0].Class == "resolver" {
+			for _, a := range act.Errs {
+				if len(a.Path) > 0 {
+					ds = append(ds, Diff{"errors", fmt.Sprintf("the operation root failed: error %q has the path %v, the root of the response is the empty path", a.Msg, a.Path)})
+				}
+			}
+			if len(act.Errs) != len(exp.Errs) {
+				ds = append(ds, Diff{"errors", fmt.Sprintf("the operation root failed once: %d errors %v", len(act.Errs), msgs(act.Errs))})
+			}
 		}
 		return ds
 	}
